@@ -30,7 +30,7 @@ def main(tier):
         for b in st.get('bad', []):
             i, t = b[0], b[1]
             row = tab['recs'][i - 1]
-            name = t if isinstance(t, str) else '%s:%s' % (t[0], TF[t[1]])
+            name = t if isinstance(t, str) else t[0] if t[1] < 0 else '%s:%s' % (t[0], TF[t[1]])
             vd.violation('sepco:' + name, '%s for addSep(%s, %s, %s, gap sign/quarters %s): base=%s' %
                          (name, 'BDRY' if row['gt'] else 'CENTRE', SD[row['sd']], 'EQ' if row['st'] == 1 else 'INEQ', row['gap'], row['base']), row)
     rows = len(tab['recs'])
